@@ -5,6 +5,11 @@
 //   get <loc> <tok> <signing 0|1> <ttlNs> <key> <present> <nominalNowNs>
 //        GET /<loc> with "Authorization: Bearer <tok>"        -> <status> [hex(body) if 200]
 //        (<present> is for the model: "absent" or "p"+hex(body) of the stored block)
+//   getnow <loc> <tok> <ttlNs> <key> <present> <nominalNowNs>
+//        BlobSigning on; sign <loc> with keepstore's SignLocator for the whole second that has
+//        already begun (expiry instant strictly in the past), GET it at once with the same token;
+//        repeated until the GET completed within that second
+//                                                             -> <status> [hex(body)] exp t0ns t1ns
 //   put <body> <tok> <tok2> <signing 0|1> <ttlNs> <key> <nominalNowNs>
 //        PUT /md5(body) with tok; then GET the returned locator with tok and with tok2
 //        -> <putStatus> hex(returnedLocator) <getStatusTok> <getStatusTok2> t0 t1
@@ -110,6 +115,28 @@ func (e *verifC07Env) run(line string) (out string) {
 			return "200 " + verifC07Enc(resp.Body.String())
 		}
 		return strconv.Itoa(resp.Code)
+	case f[0] == "getnow" && len(f) == 7:
+		e.config("1", verifC07Int(f[3]), verifC07Hex(f[4]))
+		var out string
+		for attempt := 0; attempt < 1000; attempt++ {
+			t0 := time.Now()
+			if t0.Nanosecond() == 0 {
+				continue
+			}
+			exp := t0.Unix()
+			signed := SignLocator(e.cluster, verifC07Hex(f[1]), verifC07Hex(f[2]), time.Unix(exp, 0))
+			resp := e.do("GET", signed, verifC07Hex(f[2]), nil)
+			t1 := time.Now()
+			st := strconv.Itoa(resp.Code)
+			if resp.Code == 200 {
+				st = "200 " + verifC07Enc(resp.Body.String())
+			}
+			out = fmt.Sprintf("%s %d %d %d", st, exp, t0.UnixNano(), t1.UnixNano())
+			if t1.Unix() == exp {
+				break
+			}
+		}
+		return out
 	case f[0] == "put" && len(f) == 8:
 		e.config(f[4], verifC07Int(f[5]), verifC07Hex(f[6]))
 		body := []byte(verifC07Hex(f[1]))
